@@ -2338,3 +2338,48 @@ func scenLateInstallResponse(e *engineA) error {
 	e.sleepHB(4, 8)
 	return e.finish()
 }
+
+func init() { scenarios["compact-after-remove"] = scenCompactAfterRemove }
+
+// scenCompactAfterRemove (C15 / C09): a follower hangs (its connections stay
+// open, nothing comes back); the operator force-removes it; the leader goes
+// on, takes a snapshot and compacts its log right away. The replication of
+// the removed node has been told to stop but is still waiting for an answer.
+func scenCompactAfterRemove(e *engineA) error {
+	e.prof = profiles["snapshot"]
+	if err := e.boot(3 + e.rng.Intn(2)); err != nil {
+		return err
+	}
+	l := e.cl.leader()
+	if l == nil {
+		return fmt.Errorf("no leader")
+	}
+	pad := 90 + 10*e.rng.Intn(4)
+	for i := 0; i < 10+e.rng.Intn(10); i++ {
+		e.cl.fsmOpPad(1, l, "update", pad)
+	}
+	x := e.others(l)[0]
+	e.rc.emit(&ev.Rec{K: "fault", Op: "hanging-follower-force-removed-then-compaction", Nid: x.nid})
+	// x is slow: every answer takes most of a heartbeat timeout
+	e.net.Delay(x.label, l.label, e.hb()*4/5)
+	for i := 0; i < 3; i++ {
+		e.cl.fsmOpPad(1, l, "update", pad)
+	}
+	if err := e.cl.changeConfig(l, fmt.Sprintf("forceremove(%d)", x.nid), func(c *raft.Config) error {
+		return c.SetAction(x.nid, raft.ForceRemove)
+	}); err != nil {
+		return fmt.Errorf("force remove: %v", err)
+	}
+	for i := 0; i < 30+e.rng.Intn(20); i++ {
+		e.cl.fsmOpPad(1, l, "update", pad)
+	}
+	e.cl.takeSnapshot(l, 0)
+	e.sleepHB(3, 5)
+	e.net.Delay(x.label, l.label, 0)
+	x.shutdown(30 * time.Second)
+	e.parked[x.nid] = true
+	e.cl.startInfoSampler(e.hb() / 2)
+	e.startClients(2, map[string]int{"update": 3, "read": 1})
+	e.sleepHB(3, 6)
+	return e.finish()
+}
